@@ -169,7 +169,7 @@ func VerifC11RunCfg(c VerifC11Case, dir string) (obs VerifC11Obs) {
 	source := map[string]string{
 		"dataset": `{"Type":"DatasetSource","Name":"src"}`,
 		"sample":  fmt.Sprintf(`{"Type":"SampleSource","NumberOfEntities":%d}`, verifC11N),
-		"slow":    fmt.Sprintf(`{"Type":"SlowSource","Sleep":"400ms","BatchSize":%d}`, verifC11N),
+		"slow":    fmt.Sprintf(`{"Type":"SlowSource","Sleep":"900ms","BatchSize":%d}`, verifC11N),
 	}[c.Source]
 	var remote *verifC11Remote
 	if c.Source == "http" || c.Source == "httpmid" {
@@ -277,7 +277,14 @@ func VerifC11RunCfg(c VerifC11Case, dir string) (obs VerifC11Obs) {
 			idle = 0
 		}
 	}
-	time.Sleep(20 * time.Millisecond) // deferred handleJobError may still rewrite the result
+	// after the slot is released the deferred handleJobError may still rewrite the stored result (remembered sink error)
+	// and - with unverified handlers - start a re-run at once that kills the process: with error handlers give that a
+	// wide margin (it normally takes microseconds), so that a loaded machine does not change what is observed
+	settle := 20 * time.Millisecond
+	if c.Handlers != "none" && c.Handlers != "bad" {
+		settle = 500 * time.Millisecond
+	}
+	time.Sleep(settle)
 	obs.Result = verifC11Result(store, id)
 	obs.Stored = obs.Result
 	runner.raffle.runningMu.Lock()
